@@ -17,13 +17,23 @@ _C_FUNCS = ['create', 'free', 'readInstanceFile', 'readBasisFile', 'readSettings
             'basisRowStatus', 'basisColStatus', 'getRowVectorReal', 'getRowVectorRational', 'getRowBoundsReal', 'getRowBoundsRational']
 
 
+def _stages(tier):
+    # many small chunks: the known crashing wrappers (known_findings.d/C20.json) kill a worker per occurrence
+    if tier == 'thorough':
+        return [dict(name='asan', harness='h_capi', flavour='asan', cases=50000, chunks_per_job=12),
+                dict(name='opt', harness='h_capi', flavour='opt', cases=150000, chunks_per_job=12)]
+    return [dict(name='asan', harness='h_capi', flavour='asan', cases=2000, chunks_per_job=4),
+            dict(name='opt', harness='h_capi', flavour='opt', cases=6000, chunks_per_job=4)]
+
+
 def _minima(tier):
     per_fn = 60 if tier == 'quick' else 1500
     m = {'calls.SoPlex_' + f: per_fn for f in _C_FUNCS}
-    m.update({'cases': 5000 if tier == 'quick' else 150000, 'oracle.twin_compared': 80000 if tier == 'quick' else 2500000,
+    m['calls.SoPlex_getRowVectorRational'] = 40 if tier == 'quick' else 1000      # focus cases only (1 case in 64)
+    m.update({'cases': 7000 if tier == 'quick' else 180000, 'oracle.twin_compared': 100000 if tier == 'quick' else 3000000,
               'solves.real': 300, 'solves.rational': 100, 'solves.with_iterations': 200, 'string.checked': 100,
               'args.negative_numerator': 200, 'args.denominator_one': 200, 'args.near_2^62': 100, 'args.zero_nonzeros': 100,
-              'args.nnonzeros_larger_than_needed': 100, 'args.dim_larger_than_needed': 200, 'cases.ctest': 20,
+              'args.nnonzeros_larger_than_needed': 100, 'args.dim_larger_than_needed': 200, 'cases.ctest': 100,
               'distinct:intparam_codes': 28, 'distinct:boolparam_codes': 26, 'distinct:realparam_codes': 27})
     return m
 
@@ -40,10 +50,10 @@ PROPS = {
                    'getPrimalRationalString dim = numCols). Parameter values are restricted to a region without known solver crashes.',
         technique='runtime monitoring: differential twin execution (C handle vs C++ mirror) under ASan+UBSan+LSan with exact-length and canary-padded '
                   'arrays, allocation tracking per C call (leaks, allocator of returned strings), plus an -O2 volume run',
-        stages=two_flavour('h_capi', 1500, 4500, 40000, 120000),
+        stages=_stages,
         minima=_minima,
         eval_counter='cases', distinct_set='nontrivial',
-        rule='case k -> (kind by k mod 16: general history | focus history for crash-prone functions | the C test program; sync/solve mode; '
+        rule='case k -> (kind by k mod 64: general history | focus history for crash-prone functions | the C test program; sync/solve mode; '
              'random valid calls); distinct = hash of the sequence of C function names; every history performs >= 3 C calls',
         assumptions=COMMON_ASSUME + ['only valid calls: lower <= upper, lhs <= rhs, indices in range, rational functions only with a rational LP, '
                                      'no exact solve in manual sync mode'],
